@@ -6,4 +6,5 @@ export CARGO_NET_OFFLINE=true
 ( cd coq && coq_makefile -f _CoqProject $(find theories -name '*.v' | sort) -o Makefile >/dev/null && timeout 3000 make -j16 2>&1 | grep -v '^COQ' || true )
 ( cd coq && make -j16 >/dev/null )   # fails the setup if anything does not build
 ( cd harness && cargo build --offline --quiet 2>/dev/null && cargo build --offline --quiet --release 2>/dev/null )
+( cd harness/pod-matrix && cargo build --offline --quiet --features bytemuck,serde,borsh,wincode 2>/dev/null && cargo build --offline --quiet 2>/dev/null )
 echo "setup ok"
